@@ -193,11 +193,19 @@ func parseCase(fields []string) caseT {
 // ---------------------------------------------------------------- running the implementation
 
 type commitProvider struct {
-	mu sync.Mutex
-	v  int64
+	mu   sync.Mutex
+	v    int64
+	hook func(point string) // crash mode: newReadWriteSegment asks for the commit offset right after creating the segment file
 }
 
-func (c *commitProvider) CommitOffset() int64 { c.mu.Lock(); defer c.mu.Unlock(); return c.v }
+func (c *commitProvider) CommitOffset() int64 {
+	if c.hook != nil {
+		c.hook("commitOffset")
+	}
+	c.mu.Lock()
+	defer c.mu.Unlock()
+	return c.v
+}
 func (c *commitProvider) set(v int64)         { c.mu.Lock(); c.v = v; c.mu.Unlock() }
 
 func errKind(err error) string {
@@ -806,7 +814,7 @@ func genCase(r *hx.Rng, o *hx.Out) caseT {
 				next = hx.Pick(r, []int64{g.last(), g.last() + 2, -1, 0, g.last() + 1 + int64(r.Intn(5)), -3})
 				valid = next >= 0 && (len(g.offs) == 0 || next == g.last()+1)
 			}
-			oversize := prevAppendOK && r.Chance(2)
+			oversize := prevAppendOK && r.Chance(2) && !noUnfit
 			op := g.mkAppend(next, oversize)
 			if op.e.psize == 0 || op.e.psize+headerSize > seg {
 				valid = false
@@ -934,6 +942,10 @@ func main() {
 	f := hx.ParseFlags()
 	o := hx.NewOut(f.OutDir)
 	defer o.Close()
+	if *mode == "crash" {
+		crashMain(f, o)
+		return
+	}
 	r := hx.NewRng(f.Seed)
 	tmp := os.Getenv("VERIF_TMP")
 	if tmp == "" {
